@@ -1,24 +1,130 @@
-(* C14 — CDS short timestamps.  Statements only. *)
+(* C14 — CDS short timestamps encode exactly and agree with calendar arithmetic.
+   Statements only; every proof is `exact <lemma>` from Proofs/CdsProofs.v (integer core)
+   and Proofs/CdsFloatProofs.v (float views). *)
 From Coq Require Import ZArith List.
-From SP Require Import Base.Result Base.Bytes Model.Cds Model.CdsSoftFloat Model.CdsFloat Spec.CdsSpec Proofs.CdsProofs.
+From SP Require Import Base.Result Base.Bytes Model.Cds Spec.CdsSpec Proofs.CdsProofs.
 Import ListNotations.
 Open Scope Z_scope.
 
-Theorem C14_datetime_instant_refuted :
-  exists t, cds_valid t /\ cds_datetime_us t <> cds_instant_ms t * 1000 /\
-            cds_datetime_us t = -86401000000 /\ cds_instant_ms t * 1000 = -86399000000.
-Proof. exact cds_datetime_instant_refuted. Qed.
-Print Assumptions C14_datetime_instant_refuted.
-Theorem C14_add_normalised_refuted :
-  exists t r, cds_valid t /\ cds_add t 0 1 0 = Ok r /\ cms r = 86400000.
-Proof. exact cds_add_normalised_refuted. Qed.
-Print Assumptions C14_add_normalised_refuted.
-Theorem C14_from_datetime_ms_refuted :
-  exists ud sod us, dt_valid ud sod us /\ us mod 1000 = 0 /\
-    cms (cds_from_datetime ud sod us) <> sod * 1000 + us / 1000.
-Proof. exact cds_from_datetime_ms_refuted. Qed.
-Print Assumptions C14_from_datetime_ms_refuted.
-Theorem C14_from_datetime_day_refuted :
-  exists ud sod us, dt_valid ud sod us /\ cdays (cds_from_datetime ud sod us) <> ud + 4383.
-Proof. exact cds_from_datetime_day_refuted. Qed.
-Print Assumptions C14_from_datetime_day_refuted.
+(* ---- encoding: P-field 0x40, 16-bit day, 32-bit milliseconds, for all 65536 x 86400000 pairs *)
+Theorem C14_pack_layout : forall t, cds_valid t -> cds_pack t = Ok (cds_layout t).
+Proof. exact cds_pack_layout. Qed.
+Print Assumptions C14_pack_layout.
+
+Theorem C14_layout_octets : forall t,
+  cds_layout t =
+  [64; (cdays t / 256) mod 256; cdays t mod 256;
+   (cms t / 16777216) mod 256; (cms t / 65536) mod 256; (cms t / 256) mod 256; cms t mod 256].
+Proof. exact cds_layout_octets. Qed.
+Print Assumptions C14_layout_octets.
+
+(* pack succeeds exactly on 16-bit days / 32-bit milliseconds (struct.error otherwise) *)
+Theorem C14_pack_accepts_iff : forall t,
+  (cds_packable t -> cds_pack t = Ok (cds_layout t)) /\
+  (~ cds_packable t -> cds_pack t = Err EStruct).
+Proof. exact (fun t => conj (cds_pack_layout_packable t) (cds_pack_refuses t)). Qed.
+Print Assumptions C14_pack_accepts_iff.
+
+(* decode (encode t ++ anything) = t *)
+Theorem C14_unpack_pack : forall t rest, cds_valid t -> cds_unpack (cds_layout t ++ rest) = Ok t.
+Proof. exact cds_unpack_pack. Qed.
+Print Assumptions C14_unpack_pack.
+
+(* every accepted octet string re-encodes to 0x40 followed by its octets 1..6 *)
+Theorem C14_pack_unpack : forall b, wf_bytes b -> (7 <= length b)%nat ->
+  (nth 0 b 0 / 16) mod 8 = 4 -> (nth 0 b 0 / 4) mod 2 = 0 ->
+  exists t, cds_unpack b = Ok t /\ cds_packable t /\
+            cds_pack t = Ok (64 :: slice b 1 7) /\ cds_layout t = 64 :: slice b 1 7.
+Proof. exact cds_pack_unpack. Qed.
+Print Assumptions C14_pack_unpack.
+
+(* refusals: short input, time code other than 100b, 24-bit day segment — and nothing else *)
+Theorem C14_unpack_refuses : forall b, wf_bytes b ->
+  cds_unpack_from_raw b =
+  if (length b <? 7)%nat then Err ETooShort
+  else if negb ((nth 0 b 0 / 16) mod 8 =? 4) then Err EValue
+  else if negb ((nth 0 b 0 / 4) mod 2 =? 0) then Err EValue
+  else Ok (be_decode (slice b 1 3), be_decode (slice b 3 7)).
+Proof. exact cds_unpack_from_raw_spec. Qed.
+Print Assumptions C14_unpack_refuses.
+Theorem C14_unpack_short : forall b, (length b < 7)%nat -> cds_unpack_from_raw b = Err ETooShort.
+Proof. exact cds_unpack_short. Qed.
+Print Assumptions C14_unpack_short.
+Theorem C14_unpack_wrong_time_code : forall b, wf_bytes b -> (7 <= length b)%nat ->
+  (nth 0 b 0 / 16) mod 8 <> 4 -> cds_unpack_from_raw b = Err EValue.
+Proof. exact cds_unpack_wrong_time_code. Qed.
+Print Assumptions C14_unpack_wrong_time_code.
+Theorem C14_unpack_24bit_days : forall b, wf_bytes b -> (7 <= length b)%nat ->
+  (nth 0 b 0 / 4) mod 2 <> 0 -> cds_unpack_from_raw b = Err EValue.
+Proof. exact cds_unpack_24bit_days. Qed.
+Print Assumptions C14_unpack_24bit_days.
+Theorem C14_unpack_is_unpack_from_raw : forall b, cds_unpack b =
+  match cds_unpack_from_raw b with Ok (d, ms) => Ok (cds_new d ms) | Err e => Err e end.
+Proof. exact cds_unpack_of_raw. Qed.
+Print Assumptions C14_unpack_is_unpack_from_raw.
+
+(* ---- instants: (d, ms) <-> milliseconds since 1970 is a bijection, and order preserving *)
+Theorem C14_instant_bijective : forall t, 0 <= cms t < 86400000 ->
+  cds_of_instant_ms (cds_instant_ms t) = t.
+Proof. exact cds_instant_roundtrip. Qed.
+Print Assumptions C14_instant_bijective.
+Theorem C14_instant_onto : forall i, - 4383 * 86400000 <= i < (65536 - 4383) * 86400000 ->
+  cds_valid (cds_of_instant_ms i) /\ cds_instant_ms (cds_of_instant_ms i) = i.
+Proof. exact cds_of_instant_valid. Qed.
+Print Assumptions C14_instant_onto.
+Theorem C14_monotone : forall a b, 0 <= cms a < 86400000 -> 0 <= cms b < 86400000 ->
+  (cds_lt a b <-> cds_instant_ms a < cds_instant_ms b).
+Proof. exact cds_monotone. Qed.
+Print Assumptions C14_monotone.
+Theorem C14_convert_days : forall d,
+  convert_unix_days_to_ccsds_days d = d + 4383 /\ convert_ccsds_days_to_unix_days d = d - 4383 /\
+  convert_ccsds_days_to_unix_days (convert_unix_days_to_ccsds_days d) = d /\
+  convert_unix_days_to_ccsds_days (convert_ccsds_days_to_unix_days d) = d.
+Proof. exact cds_convert_days. Qed.
+Print Assumptions C14_convert_days.
+
+(* ---- from_datetime: the day and the (floor) millisecond of the datetime's instant, exact on
+   whole milliseconds, also before 1970; valid for every datetime 1958-01-01 .. 2137-06-06 *)
+Theorem C14_from_datetime_exact : forall ud sod us, dt_valid ud sod us ->
+  let t := cds_from_datetime ud sod us in
+  cdays t = ud + 4383 /\ cms t = sod * 1000 + us / 1000 /\ 0 <= cms t < 86400000 /\
+  cds_instant_ms t = dt_instant_us ud sod us / 1000 /\
+  t = cds_of_instant_ms (dt_instant_us ud sod us / 1000) /\
+  (us mod 1000 = 0 -> cds_instant_ms t * 1000 = dt_instant_us ud sod us) /\
+  (- 4383 <= ud <= 61152 -> cds_valid t).
+Proof. exact cds_from_datetime_exact. Qed.
+Print Assumptions C14_from_datetime_exact.
+
+(* ---- __add__: integer arithmetic on total milliseconds, normalised, OverflowError iff the
+   day count would exceed 16 bits *)
+Theorem C14_add_correct : forall t dd ds du,
+  0 <= cdays t <= 65535 -> 0 <= cms t < 86400000 -> td_valid dd ds du -> 0 <= dd ->
+  let total := cdays t * 86400000 + cms t + td_ms dd ds du in
+  (total / 86400000 <= 65535 ->
+     cds_add t dd ds du = Ok {| cdays := total / 86400000; cms := total mod 86400000 |}) /\
+  (65535 < total / 86400000 -> cds_add t dd ds du = Err EOverflow).
+Proof. exact cds_add_correct. Qed.
+Print Assumptions C14_add_correct.
+Theorem C14_add_instant : forall t dd ds du r,
+  cds_valid t -> td_valid dd ds du -> 0 <= dd -> cds_add t dd ds du = Ok r ->
+  cds_valid r /\ cds_instant_ms r = cds_instant_ms t + td_ms dd ds du.
+Proof. exact cds_add_instant. Qed.
+Print Assumptions C14_add_instant.
+Theorem C14_add_overflow_iff : forall t dd ds du,
+  cds_valid t -> td_valid dd ds du -> 0 <= dd ->
+  (cds_add t dd ds du = Err EOverflow <->
+   65535 < (cdays t * 86400000 + cms t + td_ms dd ds du) / 86400000).
+Proof. exact cds_add_overflow_iff. Qed.
+Print Assumptions C14_add_overflow_iff.
+
+Theorem C14_eq : forall a b, cds_eqb a b = true <-> a = b.
+Proof. exact cds_eqb_eq. Qed.
+Print Assumptions C14_eq.
+
+(* non-vacuity *)
+Example C14_valid_inhabited : cds_valid {| cdays := 65535; cms := 86399999 |}.
+Proof. exact cds_valid_example. Qed.
+Example C14_add_inhabited :
+  cds_add {| cdays := 65534; cms := 86399000 |} 0 1 0 = Ok {| cdays := 65535; cms := 0 |} /\
+  cds_add {| cdays := 65535; cms := 86399000 |} 0 1 0 = Err EOverflow.
+Proof. exact cds_add_example. Qed.
